@@ -41,11 +41,11 @@ func (s *SpyHeaders) VerifyHeader(ctx context.Context, h *wire.BlockHeader) erro
 
 // SpyPeers wraps a real peer book and records every call.
 type SpyPeers struct {
-	Inner    *bitcoin_reader.StoragePeerRepository
-	Adds     int64
-	Scores   int64
-	Times    int64
-	mu       sync.Mutex
+	Inner      *bitcoin_reader.StoragePeerRepository
+	Adds       int64
+	Scores     int64
+	Times      int64
+	mu         sync.Mutex
 	AddedAddrs []string
 }
 
@@ -74,13 +74,13 @@ func (s *SpyPeers) UpdateScore(ctx context.Context, address string, delta int32)
 
 // RecProcessor records every TxProcessor / TxSaver call.
 type RecProcessor struct {
-	mu        sync.Mutex
-	Events    []ProcEvent
-	Relevant  func(txid bitcoin.Hash32) bool
-	FailAt    int    // 1-based call number at which FailKind fails (0 = never)
-	FailKind  string // "process" "coinbase" "confirm"
-	calls     map[string]int
-	OnCall    func(kind string)
+	mu       sync.Mutex
+	Events   []ProcEvent
+	Relevant func(txid bitcoin.Hash32) bool
+	FailAt   int    // 1-based call number at which FailKind fails (0 = never)
+	FailKind string // "process" "coinbase" "confirm"
+	calls    map[string]int
+	OnCall   func(kind string)
 }
 
 type ProcEvent struct {
